@@ -76,6 +76,7 @@ type vRes06 struct {
 type vE06 struct {
 	vCase06
 	K    int    `json:"k"`
+	Hist string `json:"hist"` // "fresh": an Attestor made for this call; "used": the long-lived one shared by all cases
 	Src  string `json:"src"`
 	Res  vRes06 `json:"res"`
 	Info string `json:"info,omitempty"`
@@ -233,6 +234,12 @@ func newCA(cn string) *vCA {
 
 // device certificate for a chain relation and a validity class
 func deviceCert(root, other *vCA, dev crypto.Signer, rel, tm string, serial int64) *x509.Certificate {
+	return deviceCertT(root, other, nil, dev, rel, tm, serial)
+}
+
+// deviceCertT also mints forged twins: same issuer name and serial number as a genuine certificate, key dev, issued by
+// namesake (a CA that merely bears the root's name) or self-signed under the root's name.
+func deviceCertT(root, other, namesake *vCA, dev crypto.Signer, rel, tm string, serial int64) *x509.Certificate {
 	now := time.Now()
 	nb, na := now.Add(-time.Hour), now.Add(24*time.Hour)
 	switch tm {
@@ -250,6 +257,12 @@ func deviceCert(root, other *vCA, dev crypto.Signer, rel, tm string, serial int6
 		parent, signer = root.cert, root.key
 	case "otherca":
 		parent, signer = other.cert, other.key
+	case "twin_otherca":
+		parent, signer = namesake.cert, namesake.key
+	case "twin_self":
+		tpl.Subject = root.cert.Subject
+		tpl.RawSubject = root.cert.RawSubject
+		parent, signer = tpl, dev
 	default:
 		parent, signer = tpl, dev
 	}
@@ -265,24 +278,31 @@ func deviceCert(root, other *vCA, dev crypto.Signer, rel, tm string, serial int6
 }
 
 type vDev struct {
-	kt    string
-	bits  int
-	rsa   *rsa.PrivateKey
-	sig   crypto.Signer
-	certs map[string]*x509.Certificate // rel/time
+	genuine *x509.Certificate // root-issued, valid, ANOTHER key (victim), the identity the twins copy
+	victim  *rsa.PrivateKey
+	kt      string
+	bits    int
+	rsa     *rsa.PrivateKey
+	sig     crypto.Signer
+	certs   map[string]*x509.Certificate // rel/time
 }
 
 type vWorld struct {
 	root, other *vCA
-	att         *yubiattest.Attestor
+	namesake    *vCA // not in the pool, same subject name as root
+	pool        *x509.CertPool
+	att         *yubiattest.Attestor // long-lived: shared by all cases of the run
 	tbs         [][]byte
 }
 
 func newWorld(r *mrand.Rand) *vWorld {
-	w := &vWorld{root: newCA("verif root"), other: newCA("verif other CA")}
-	pool := x509.NewCertPool()
-	pool.AddCert(w.root.cert)
-	w.att = yubiattest.NewAttestorWithCAPool(pool)
+	w := &vWorld{root: newCA("verif root"), other: newCA("verif other CA"), namesake: newCA("verif root")}
+	if w.root.cert.Issuer.String() != w.namesake.cert.Subject.String() {
+		panic("harness: namesake CA has another name")
+	}
+	w.pool = x509.NewCertPool()
+	w.pool.AddCert(w.root.cert)
+	w.att = yubiattest.NewAttestorWithCAPool(w.pool)
 	// to-be-signed bytes: real TBSCertificate encodings (only hashed by the code under test)
 	k, _ := ecdsa.GenerateKey(elliptic.P256(), crand.Reader)
 	for i := 0; i < 24; i++ {
@@ -326,16 +346,60 @@ func (w *vWorld) device(kt string, bits int, serial int64) *vDev {
 			d.certs[rel+"/"+tm] = deviceCert(w.root, w.other, d.sig, rel, tm, serial)
 		}
 	}
+	// the genuine certificate of another (victim) key and its forged twins carrying this device's key
+	serial++
+	d.victim = ffKey(1024)
+	if d.rsa != nil && d.rsa.N.Cmp(d.victim.N) == 0 {
+		d.victim = rsaKey(1024)
+	}
+	if d.rsa != nil && d.rsa.N.Cmp(d.victim.N) == 0 {
+		d.victim = rsaKey(2048)
+	}
+	d.genuine = deviceCert(w.root, w.other, d.victim, "root", "valid", serial)
+	for _, rel := range []string{"twin_otherca", "twin_self"} {
+		t := deviceCertT(w.root, w.other, w.namesake, d.sig, rel, "valid", serial)
+		if t.Issuer.String() != d.genuine.Issuer.String() || t.SerialNumber.Cmp(d.genuine.SerialNumber) != 0 || bytes.Equal(t.Raw, d.genuine.Raw) {
+			panic("harness: twin does not copy the identity of the genuine certificate")
+		}
+		d.certs[rel+"/valid"] = t
+	}
 	return d
 }
 
 func (w *vWorld) attest(dev, slot *x509.Certificate) (res vRes06) {
+	return w.attestOn(w.att, dev, slot)
+}
+
+func (w *vWorld) attestOn(a *yubiattest.Attestor, dev, slot *x509.Certificate) (res vRes06) {
 	defer func() {
 		if x := recover(); x != nil {
 			res = vRes06{Acc: false, Pan: true}
 		}
 	}()
-	return vRes06{Acc: w.att.Attest(dev, slot) == nil}
+	return vRes06{Acc: a.Attest(dev, slot) == nil}
+}
+
+// prime attests the genuine certificate of d's victim key on the long-lived Attestor (an honest slot signature),
+// so that the forged twins are presented to an Attestor that has accepted the identity they copy.
+func (w *vWorld) prime(d *vDev, name string, tr *verifh.Trace, st *vStats06) {
+	tbs := w.tbs[0]
+	sig, err := rsa.SignPKCS1v15(nil, d.victim, crypto.SHA256, digestOf("sha256", tbs))
+	if err != nil {
+		panic(err)
+	}
+	k := (d.victim.N.BitLen() + 7) / 8
+	em := new(big.Int).Exp(new(big.Int).SetBytes(sig), big.NewInt(int64(d.victim.E)), d.victim.N).FillBytes(make([]byte, k))
+	c := vCase06{P: "C06", Kt: "rsa", Alg: 4, Rel: "root", Time: "valid", Sf: "canon", H0: "sha256", N0: true, Mut: "prime", Em: abstractEM(em, tbs, "sha256")}
+	ev := &vE06{vCase06: c, K: k, Hist: "used", Src: "B-prime"}
+	ev.Res = w.attest(d.genuine, &x509.Certificate{RawTBSCertificate: tbs, Signature: sig, SignatureAlgorithm: x509.SHA256WithRSA})
+	st.note(ev)
+	st.mu.Lock()
+	st.B++
+	if ev.Res.Acc {
+		st.Primed++
+	}
+	st.mu.Unlock()
+	tr.Emit(vEvent{Ev: "step", P: "C06", Tid: "prime-" + name, E: ev})
 }
 
 // ---------------------------------------------------------------------------------------------
@@ -573,17 +637,20 @@ func cryptoHash(h string) crypto.Hash {
 // ---------------------------------------------------------------------------------------------
 
 type vStats06 struct {
-	mu       sync.Mutex
-	Events   int            `json:"events"`
-	A        int            `json:"a_cases"`
-	B        int            `json:"b_cases"`
-	Unreal   int            `json:"unrealisable"`
-	Accepted int            `json:"accepted"`
-	Panics   int            `json:"panics"`
-	Distinct map[string]int `json:"-"`
-	NDist    int            `json:"distinct"`
-	KeyGenS  float64        `json:"keygen_s"`
-	Bits     []int          `json:"bits"`
+	mu        sync.Mutex
+	Events    int            `json:"events"`
+	A         int            `json:"a_cases"`
+	B         int            `json:"b_cases"`
+	Calls     int            `json:"a_calls"`
+	Primed    int            `json:"primed"`
+	TwinCalls int            `json:"twin_calls_on_used"`
+	Unreal    int            `json:"unrealisable"`
+	Accepted  int            `json:"accepted"`
+	Panics    int            `json:"panics"`
+	Distinct  map[string]int `json:"-"`
+	NDist     int            `json:"distinct"`
+	KeyGenS   float64        `json:"keygen_s"`
+	Bits      []int          `json:"bits"`
 }
 
 func (s *vStats06) note(e *vE06) {
@@ -596,7 +663,7 @@ func (s *vStats06) note(e *vE06) {
 	if e.Res.Pan {
 		s.Panics++
 	}
-	key := fmt.Sprintf("%s|%d|%s|%s|%s|%s|%s|%v|%s|%d|%s|%v|%d", e.Kt, e.Alg, e.Rel, e.Time, e.Sf, e.Mut, e.Em.Shape, e.Em.Pfx, e.Em.Dgh, e.Em.Dgj, e.Em.Lead+e.Em.Bt+e.Em.Psf+e.Em.Psm+e.Em.Psl+e.Em.Sep+e.Em.Dgv, e.Res, e.K)
+	key := fmt.Sprintf("%s|%s|%d|%s|%s|%s|%s|%s|%v|%s|%d|%s|%v|%d", e.Hist, e.Kt, e.Alg, e.Rel, e.Time, e.Sf, e.Mut, e.Em.Shape, e.Em.Pfx, e.Em.Dgh, e.Em.Dgj, e.Em.Lead+e.Em.Bt+e.Em.Psf+e.Em.Psm+e.Em.Psl+e.Em.Sep+e.Em.Dgv, e.Res, e.K)
 	s.Distinct[key]++
 }
 
@@ -625,11 +692,16 @@ func TestVerifAttest06(t *testing.T) {
 		devs[kt+"/0"] = w.device(kt, 0, int64(100000+1000*i))
 	}
 
+	// the genuine certificates are attested first (and again now and then), then everything else in seeded random order
+	for name, d := range devs {
+		w.prime(d, name, tr, st)
+	}
 	type job struct {
 		ci   int
 		bits int
 	}
 	jobs := make(chan job, 256)
+	var all []job
 	var wg sync.WaitGroup
 	nw := plan.Worker
 	if nw <= 0 {
@@ -648,14 +720,19 @@ func TestVerifAttest06(t *testing.T) {
 	}
 	for ci := range plan.Cases {
 		if plan.Cases[ci].C.Kt == "rsa" && plan.Cases[ci].C.Em.Lead == "FF" {
-			jobs <- job{ci, -1} // needs the modulus that begins with FF
+			all = append(all, job{ci, -1}) // needs the modulus that begins with FF
 		} else if plan.Cases[ci].C.Kt == "rsa" {
 			for _, b := range plan.Bits {
-				jobs <- job{ci, b}
+				all = append(all, job{ci, b})
 			}
 		} else {
-			jobs <- job{ci, 0}
+			all = append(all, job{ci, 0})
 		}
+	}
+	sh := verifh.NewRand("attest06-order", 0)
+	sh.Shuffle(len(all), func(i, j int) { all[i], all[j] = all[j], all[i] })
+	for _, j := range all {
+		jobs <- j
 	}
 	close(jobs)
 	wg.Wait()
@@ -710,12 +787,35 @@ func (w *vWorld) runCaseA(c vCase06, ci, bits int, devs map[string]*vDev, r *mra
 		}
 	}
 	slot := &x509.Certificate{RawTBSCertificate: tbs, Signature: sig, SignatureAlgorithm: x509.SignatureAlgorithm(c.Alg)}
-	ev.Res = w.attest(dev.certs[c.Rel+"/"+c.Time], slot)
-	st.note(ev)
+	dc := dev.certs[c.Rel+"/"+c.Time]
+	if dc == nil {
+		panic("harness: no device certificate for " + c.Rel + "/" + c.Time)
+	}
 	st.mu.Lock()
 	st.A++
 	st.mu.Unlock()
-	tr.Emit(vEvent{Ev: "step", P: "C06", Tid: tid, E: ev})
+	// the same call on the long-lived Attestor (after whatever was attested before, concurrently with other calls),
+	// on a fresh one, and on the long-lived one once more: each call is its own event
+	for i, h := range []string{"used", "fresh", "used"} {
+		if i == 2 && r.Intn(4) != 0 && c.Rel != "twin_self" && c.Rel != "twin_otherca" {
+			continue
+		}
+		e2 := *ev
+		e2.Hist = h
+		if h == "fresh" {
+			e2.Res = w.attestOn(yubiattest.NewAttestorWithCAPool(w.pool), dc, slot)
+		} else {
+			e2.Res = w.attest(dc, slot)
+		}
+		st.note(&e2)
+		st.mu.Lock()
+		st.Calls++
+		if h == "used" && (c.Rel == "twin_self" || c.Rel == "twin_otherca") {
+			st.TwinCalls++
+		}
+		st.mu.Unlock()
+		tr.Emit(vEvent{Ev: "step", P: "C06", Tid: fmt.Sprintf("%s-%s%d", tid, h[:1], i), E: &e2})
+	}
 }
 
 func honestNonRSA(s crypto.Signer, tbs []byte) []byte {
@@ -750,7 +850,7 @@ func (w *vWorld) runB(dev *vDev, nflip int, only map[string]bool, tr *verifh.Tra
 		if len(only) > 0 && !only[tid] {
 			return
 		}
-		ev := &vE06{vCase06: c, K: k, Src: src, Info: info}
+		ev := &vE06{vCase06: c, K: k, Hist: "used", Src: src, Info: info}
 		slot := &x509.Certificate{RawTBSCertificate: tbs, Signature: sig, SignatureAlgorithm: x509.SignatureAlgorithm(c.Alg)}
 		ev.Res = w.attest(dev.certs[c.Rel+"/"+c.Time], slot)
 		st.note(ev)
@@ -848,7 +948,7 @@ func (w *vWorld) runBNonRSA(devs map[string]*vDev, only map[string]bool, tr *ver
 				sig = honestNonRSA(dev.sig, tbs)
 			}
 			c := vCase06{P: "C06", Kt: kt, Alg: a, Rel: "root", Time: "valid", Sf: sf, H0: "none", Mut: "B", Em: noEM}
-			ev := &vE06{vCase06: c, Src: "B-nonrsa"}
+			ev := &vE06{vCase06: c, Hist: "used", Src: "B-nonrsa"}
 			slot := &x509.Certificate{RawTBSCertificate: tbs, Signature: sig, SignatureAlgorithm: x509.SignatureAlgorithm(a)}
 			ev.Res = w.attest(dev.certs["root/valid"], slot)
 			st.note(ev)
